@@ -19,7 +19,7 @@ from impl_prog import Duck
 from jaxtyping import Float, jaxtyped
 
 LEVEL = "proof"
-THEOREMS = [
+THEOREMS = ["C05_source_storage", 
     "C05_balanced",
     "C05_ctx_exact",
     "C05_call_exact",
@@ -38,6 +38,7 @@ RULE = (
     "an exceptional exit; distinct by program text"
 )
 TRUSTED = [
+    "harness/translate_storage.py (recognisers of the statements of get/set/push/pop_shape_memo and their helpers) and the interpreter Model/StorageDsl.lean (one list object per thread cell; list end = head of the model's list)",
     "Lean 4 kernel",
     "harness/extract.py: recognition of push/try-finally-pop, bind-before-push, __exit__",
     "CPython try/finally semantics",
